@@ -4,7 +4,7 @@ import PyramidModel.Route
 in : {"ucd":{"word":[cp…],"digit":[…],"space":[…]}, "rxlib":[RX…],
       "routes":[{"name":T,"pattern":T,"preds":[["c",bool] | ["e",T,T]…],"static":bool}…], "path":[byte…]|null}
      RX = ["eps"] | ["chr",cp] | ["any"] | ["all"] | ["set",neg,[["c",cp]|["r",lo,hi]|["e","d"|"w"|"s"]…]] | ["esc",k,neg]
-        | ["seq",RX,RX] | ["alt",RX,RX] | ["rep",greedy,min,max|null,RX]
+        | ["seq",RX,RX] | ["alt",RX,RX] | ["grp",null|name,RX] (capturing group of the regex's own, transparent) | ["rep",greedy,min,max|null,RX]
      or {"op":"tables"}  (the ASCII tables of the model, compared with `re` by the harness)
      a route may carry "builtins":[[keyword, null | bool]…]: built-in predicate keywords as passed (null = None; bool = what the
      predicate made from the given value answers for this request), and the add_route layer: "top":T|null, "prefixes":[T|null…], "usepath":bool, "inherit":bool, "nopattern":bool
@@ -51,6 +51,8 @@ partial def jRx (j : Json) : Except String Rx :=
   | .arr #[.str "esc", k, n] => do pure (.esc (← jEsc k) (← jBool n))
   | .arr #[.str "seq", a, b] => do pure (.seq (← jRx a) (← jRx b))
   | .arr #[.str "alt", a, b] => do pure (.alt (← jRx a) (← jRx b))
+  | .arr #[.str "grp", .null, r] => do pure (.grp none (← jRx r))
+  | .arr #[.str "grp", n, r] => do pure (.grp (some (← jText n)) (← jRx r))
   | .arr #[.str "rep", g, m, n, r] => do
     let mx : Option Nat ← (match n with | .null => pure none | n => do let k : Nat ← fromJson? n; pure (some k))
     let mn : Nat ← fromJson? m
